@@ -33,6 +33,9 @@ def code_gen(settings):
 
     def gen(rnd):
         n[0] += 1
+        if rnd.random() < 0.3:
+            # the lines every file repeats verbatim, print after print
+            return rnd.choice(["M204 S500", "M205 X8 Y8", "M73 P50", "M204 S500", "M117 Printing...", "M900 K0.05", "G4 P0"])
         c = rnd.choice(pool)
         return "%s %s" % (c, "hello %d" % n[0] if c == "M117" else "S%d" % (n[0] % 250))
     return gen
@@ -405,6 +408,8 @@ class C10(Monitor):
         regs_t = [(["rect", r["x1"], r["y1"], r["x2"], r["y2"], r["id"]] if r["type"] == "RectangularRegion"
                    else ["circ", r["cx"], r["cy"], r["r"], r["id"]]) for r in regions_now]
         body = program(rq, regs_t, settings, rq.randint(5, 45), feats=case.get("q_feats"))
+        if case["q_seed"] % 7 == 3 and body and body[0][0] == "g" and body[0][1] == "G28":
+            body[0] = ["g", "G28 O"]          # "home if needed" (Marlin): the filter homes its tracked position all the same
         if case["q_seed"] % 17 == 0:
             body = body[:case["q_seed"] % 3]      # a job of (next to) no lines: the script hook is the first thing it asks for
         q = [["event", EV_START]] + body + [["script", "gcode", "afterPrintDone"]]
